@@ -1,6 +1,7 @@
 package main
 
 import (
+	"go/token"
 	"sort"
 	"strings"
 
@@ -165,10 +166,51 @@ func runC11(c *Ctx) {
 		return strings.Join(dd, " | ")
 	}
 	ref := modeOf(pipe)
-	r.Check(strings.Contains(ref, "@implements-ProducerState") && strings.Contains(ref, "info.Type =="), "R-MODE", "pipe|predicate", u.Pos(pipe.Pos()), "isProducer = "+ref, "pipe mode predicate not recognised: "+ref)
+	// the decision table of isProducer over (method type, state implements ProducerState),
+	// independent of how the if/switch chain is written
+	modeTable := func(fn *ssa.Function) string {
+		var rows []string
+		for _, tn := range []string{"MethodProducer", "MethodExchange", "MethodDynamic"} {
+			kv, _ := u.ConstValue(tn)
+			for _, impl := range []bool{true, false} {
+				w := &boolWalk{u: u, fn: fn,
+					isVar: func(v ssa.Value) bool {
+						switch v.(type) {
+						case *ssa.Phi, *ssa.Alloc:
+							return u.VarName(v) == "isProducer"
+						}
+						return false
+					},
+					oracle: func(v ssa.Value) (bool, bool) {
+						switch y := v.(type) {
+						case *ssa.Extract:
+							if ta, ok := y.Tuple.(*ssa.TypeAssert); ok && ta.CommaOk && y.Index == 1 && strings.HasSuffix(typeShort(ta.AssertedType), "ProducerState") {
+								return impl, true
+							}
+						case *ssa.BinOp:
+							if y.Op == token.EQL || y.Op == token.NEQ {
+								for _, pr := range [][2]ssa.Value{{y.X, y.Y}, {y.Y, y.X}} {
+									k, isK := pr[1].(*ssa.Const)
+									if isK && k.Value != nil && strings.HasSuffix(u.Describe(pr[0]), ".Type") {
+										return (k.Value.String() == kv) == (y.Op == token.EQL), true
+									}
+								}
+							}
+						}
+						return false, false
+					}}
+				rows = append(rows, tn+"/"+boolStr(impl)+"→"+strings.Join(w.finalValues(), ","))
+			}
+		}
+		return strings.Join(rows, "; ")
+	}
+	wantTable := "MethodProducer/true→true; MethodProducer/false→true; MethodExchange/true→false; MethodExchange/false→false; MethodDynamic/true→true; MethodDynamic/false→false"
+	refT := modeTable(pipe)
+	r.Check(refT == wantTable || (strings.Contains(ref, "@implements-ProducerState") && strings.Contains(ref, "info.Type ==")), "R-MODE", "pipe|predicate", u.Pos(pipe.Pos()), "isProducer = "+ref, "pipe mode predicate not recognised: "+ref+" (table: "+refT+")")
 	for _, f := range []*ssa.Function{hi, hx} {
 		m := modeOf(f)
-		r.Check(m == ref, "R-MODE", shortName(f)+"|same-predicate", u.Pos(f.Pos()), "same producer/exchange predicate as the pipe loop", shortName(f)+" decides mode by ["+m+"], the pipe loop by ["+ref+"]")
+		t := modeTable(f)
+		r.Check(m == ref || (t == refT && refT == wantTable), "R-MODE", shortName(f)+"|same-predicate", u.Pos(f.Pos()), "same producer/exchange predicate as the pipe loop", shortName(f)+" decides mode by ["+m+"], the pipe loop by ["+ref+"] (decision tables: "+t+" vs "+refT+")")
 	}
 	// ---- R-COLLECTOR-MODE
 	want := map[string]string{"(*Server).serveStream": "isProducer", "(*HttpServer).handleExchangeCall": "false", "(*HttpServer).runProduceLoopCapped": "true"}
